@@ -45,6 +45,8 @@ type Planner struct {
 	Src  Operand
 	Dst  Operand
 	Args []Operand
+
+	nonAddr map[string]bool // source expressions (relative to the source root) that are not addressable
 }
 
 // NewPlanner prepares a planner; ok=false when the method has no usable operands.
@@ -53,7 +55,7 @@ func NewPlanner(pkg *types.Package, m *Method) (*Planner, bool) {
 	if !ok {
 		return nil, false
 	}
-	return &Planner{Pkg: pkg, M: m, Src: src, Dst: dst, Args: args}, true
+	return &Planner{Pkg: pkg, M: m, Src: src, Dst: dst, Args: args, nonAddr: map[string]bool{}}, true
 }
 
 func deref(t types.Type) types.Type {
@@ -328,6 +330,9 @@ func (p *Planner) byName(e *Expect, f *types.Var, lpkg *types.Package, rtype typ
 					continue
 				}
 				_, ptr := sig.Recv().Type().(*types.Pointer)
+				if _, opPtr := rtype.(*types.Pointer); ptr && !opPtr && p.nonAddr[rexpr] {
+					continue // a pointer-receiver method cannot be called on an operand that is neither a pointer nor addressable
+				}
 				cands = append(cands, candidate{m.Name(), sig.Results().At(0).Type(), true, ptr})
 			}
 		}
@@ -401,6 +406,13 @@ func (p *Planner) byName(e *Expect, f *types.Var, lpkg *types.Package, rtype typ
 					continue
 				}
 				e.Alts = []Alt{{Kind: "descend", Src: expr(c)}}
+				if _, opPtr := rtype.(*types.Pointer); c.getter || (p.nonAddr[rexpr] && !opPtr) {
+					// the result of a getter is not addressable, nor is a field selected from such a value
+					if p.nonAddr == nil {
+						p.nonAddr = map[string]bool{}
+					}
+					p.nonAddr[expr(c)] = true
+				}
 				e.Children = p.fields(f.Type(), lpkg, c.typ, rpkg, e.Path, expr(c), false)
 				if len(cands) > 1 {
 					e.Gray = "several same-name candidates"
@@ -515,6 +527,7 @@ func castTargetPlain(t types.Type) bool {
 func (p *Planner) resolveSrc(t types.Type, segs []string) (typ types.Type, retErr, ok bool, gray string) {
 	typ = t
 	var inherited *types.Package
+	addr := true // the root operand is a variable
 	for i, seg := range segs {
 		last := i == len(segs)-1
 		getter := strings.HasSuffix(seg, "()")
@@ -542,6 +555,11 @@ func (p *Planner) resolveSrc(t types.Type, segs []string) (typ types.Type, retEr
 			if sig.Params().Len() != 0 || sig.Results().Len() == 0 || sig.Results().Len() > 2 {
 				return nil, false, false, ""
 			}
+			_, recvPtr := sig.Recv().Type().(*types.Pointer)
+			if _, opPtr := typ.(*types.Pointer); recvPtr && !opPtr && !addr {
+				return nil, false, false, ""
+			}
+			addr = false
 			if sig.Results().Len() == 2 {
 				if !isError(sig.Results().At(1).Type()) {
 					return nil, false, false, ""
@@ -556,6 +574,9 @@ func (p *Planner) resolveSrc(t types.Type, segs []string) (typ types.Type, retEr
 			v, isVar := obj.(*types.Var)
 			if !isVar {
 				return nil, false, false, ""
+			}
+			if _, opPtr := typ.(*types.Pointer); opPtr {
+				addr = true
 			}
 			typ = v.Type()
 		}
